@@ -51,6 +51,9 @@ type scenario struct {
 	Archs []string `json:"archs"` // apk names
 	World []string `json:"world"`
 	Pkgs  []pspec  `json:"pkgs"`
+	// repositories and keyring are handed to the library through build options (--repository-append / --keyring-append)
+	// instead of standing in the image configuration
+	ViaOptions bool `json:"repositories_via_options,omitempty"`
 }
 
 type world struct {
@@ -115,10 +118,20 @@ func (w *world) repos() []string {
 	return r
 }
 
+// opts: the build options of this world (the repositories and the key when the scenario hands them over that way)
+func (w *world) opts() []build.Option {
+	if !w.sc.ViaOptions {
+		return nil
+	}
+	return []build.Option{build.WithExtraRuntimeRepos(w.repos()), build.WithExtraKeys([]string{w.main.KeyPath()})}
+}
+
 func (w *world) ic(packages []string, archs []string) types.ImageConfiguration {
 	ic := types.ImageConfiguration{}
-	ic.Contents.RuntimeRepositories = w.repos()
-	ic.Contents.Keyring = []string{w.main.KeyPath()}
+	if !w.sc.ViaOptions {
+		ic.Contents.RuntimeRepositories = w.repos()
+		ic.Contents.Keyring = []string{w.main.KeyPath()}
+	}
 	ic.Contents.Packages = append([]string(nil), packages...)
 	for _, a := range archs {
 		ic.Archs = append(ic.Archs, types.ParseArchitecture(a))
@@ -142,14 +155,14 @@ func quietCtx() context.Context {
 
 // resolveMulti: the per-architecture install lists of a multi-arch context,
 // keyed by the OCI architecture name; nil map = resolution failed.
-func resolveMulti(ic types.ImageConfiguration) (res map[string][]opkg, errText string) {
+func resolveMulti(ic types.ImageConfiguration, opts ...build.Option) (res map[string][]opkg, errText string) {
 	defer func() {
 		if r := recover(); r != nil {
 			res, errText = nil, fmt.Sprint("panic: ", r)
 		}
 	}()
 	ctx := quietCtx()
-	mc, err := build.NewMultiArch(ctx, ic.Archs, build.WithImageConfiguration(ic))
+	mc, err := build.NewMultiArch(ctx, ic.Archs, append(append([]build.Option(nil), opts...), build.WithImageConfiguration(ic))...)
 	if err != nil {
 		return nil, err.Error()
 	}
@@ -180,13 +193,13 @@ func (o lockObs) gal() string {
 	return uobs{Kind: o.Kind, ByArch: o.ByArch, Missing: o.Missing}.gal()
 }
 
-func lockImage(ic types.ImageConfiguration) (o lockObs) {
+func lockImage(ic types.ImageConfiguration, opts ...build.Option) (o lockObs) {
 	defer func() {
 		if r := recover(); r != nil {
 			o = lockObs{Kind: "panic", Err: fmt.Sprint(r)}
 		}
 	}()
-	ics, missing, err := build.LockImageConfiguration(quietCtx(), ic)
+	ics, missing, err := build.LockImageConfiguration(quietCtx(), ic, opts...)
 	if err != nil {
 		return lockObs{Kind: "err", Err: err.Error()}
 	}
@@ -239,7 +252,7 @@ func apiCase(w *gal.Writer, wd *world, class string, lockRuns int) {
 	sc := wd.sc
 	ic := wd.ic(sc.World, sc.Archs)
 	d := apiDesc{Scenario: sc}
-	d.Resolution, d.ResErr = resolveMulti(ic)
+	d.Resolution, d.ResErr = resolveMulti(ic, wd.opts()...)
 	for a, ps := range d.Resolution {
 		for i := range ps {
 			ps[i].Tagged = wd.taggedOnly(types.ParseArchitecture(a).ToAPK(), ps[i].Name, ps[i].Version)
@@ -248,7 +261,7 @@ func apiCase(w *gal.Writer, wd *world, class string, lockRuns int) {
 	var runs []string
 	var first lockObs
 	for i := 0; i < lockRuns; i++ {
-		o := lockImage(ic)
+		o := lockImage(ic, wd.opts()...)
 		if i == 0 || (first.Kind != "ok" && o.Kind == "ok") {
 			first = o
 		}
@@ -466,7 +479,7 @@ func galNums(lo, hi int64, ok bool) string {
 // singleArchResolution: what `apko lock` resolves for one architecture (its
 // contexts are single-architecture ones)
 func singleArchResolution(wd *world, packages []string, arch string) []opkg {
-	r, _ := resolveMulti(wd.ic(packages, []string{arch}))
+	r, _ := resolveMulti(wd.ic(packages, []string{arch}), wd.opts()...)
 	if r == nil {
 		return nil
 	}
@@ -773,6 +786,21 @@ func corpusScenarios() []scenario {
 			{Name: "p", Version: "1.0-r0", Archs: both(), Provides: []string{"q"}}, {Name: "q", Version: "2.0-r0", Archs: both()}}},
 		{Name: "dependency-missing-on-one-arch", Archs: both(), World: []string{"a"}, Pkgs: []pspec{
 			{Name: "a", Version: "1.0-r0", Archs: both(), Deps: []string{"b"}}, {Name: "b", Version: "1.0-r0", Archs: []string{X}}}},
+		// the repositories and the key come through build options: the locked configurations are re-resolved on their own, so they must
+		// name what the resolution used (LockImageConfiguration folds the appended repositories and keys into what it copies)
+		{Name: "repositories-via-options", Archs: both(), World: []string{"a"}, ViaOptions: true, Pkgs: []pspec{
+			{Name: "a", Version: "1.0-r0", Archs: both(), Deps: []string{"b"}}, {Name: "b", Version: "2.0-r0", Archs: both()},
+			{Name: "b", Version: "2.1-r0", Archs: []string{X}}}},
+		{Name: "repositories-via-options-pinned", Archs: both(), World: []string{"a@edge", "c"}, ViaOptions: true, Pkgs: []pspec{
+			{Name: "a", Version: "1.0-r0", Archs: both()}, {Name: "a", Version: "2.0-r0", Archs: both(), Edge: true},
+			{Name: "c", Version: "1.0-r0", Archs: both()}}},
+		// architectures that can run one another's binaries are still different architectures of a lock file
+		{Name: "compatible-architectures-x86", Archs: []string{"x86", X}, World: []string{"a"}, Pkgs: []pspec{
+			{Name: "a", Version: "1.0-r0", Archs: []string{"x86", X}, Deps: []string{"b"}}, {Name: "b", Version: "2.0-r0", Archs: []string{"x86", X}}}},
+		{Name: "compatible-architectures-arm", Archs: []string{"armv7", Y}, World: []string{"a"}, Pkgs: []pspec{
+			{Name: "a", Version: "1.0-r0", Archs: []string{"armv7", Y}, Deps: []string{"b"}}, {Name: "b", Version: "2.0-r0", Archs: []string{"armv7", Y}}}},
+		{Name: "riscv64-only", Archs: []string{Zr}, World: []string{"a"}, Pkgs: []pspec{
+			{Name: "a", Version: "1.0-r0", Archs: []string{Zr}, Deps: []string{"b"}}, {Name: "b", Version: "2.0-r0", Archs: []string{Zr}}}},
 	}
 }
 
@@ -884,6 +912,7 @@ func genScenario(r *gal.Rand, i int) scenario {
 			sc.World = append(sc.World, wv)
 		}
 	}
+	sc.ViaOptions = i%5 == 3 // drawn from the index, so the random stream of the other fields stays what it was
 	return sc
 }
 
@@ -941,6 +970,7 @@ func cliStage(dir string, seed uint64, tier string) error {
 	pick := map[string][]string{ // scenario -> architectures to build (locked and unlocked)
 		"basic-dep": {X}, "virtual-by-provided-name": {Y}, "pinned-with-dependency-in-tagged-repo": {X}, "diamond": {X},
 		"newer-version-on-one-arch": {X},
+		"compatible-architectures-x86": {X, "x86"}, "compatible-architectures-arm": {Y}, "riscv64-only": {Zr},
 	}
 	for _, sc := range cs {
 		sc := sc
